@@ -593,7 +593,9 @@ def read_topmatter(text: str | Iterator[str]) -> dict[str, Any] | None:
         top_matter.append(line.rstrip() + "\n")
     try:
         metadata = yaml.safe_load("".join(top_matter))
-    except yaml.YAMLError as err:
+    except (yaml.YAMLError, ValueError, RecursionError) as err:
+        # note, values that cannot be constructed (e.g. an invalid date, or a huge integer)
+        # raise a plain ValueError, and very deeply nested structures a RecursionError
         raise TopmatterReadError("Malformed YAML") from err
     if not isinstance(metadata, dict):
         raise TopmatterReadError(f"YAML is not a dict: {type(metadata)}")
